@@ -20,7 +20,7 @@ RULE = ("case = DCOP description + externals + infinity + assignment (complete o
         ">=2 variables; distinct by sha1(case)")
 ASSUMPTIONS = ["finite costs are ints or dyadic floats (exact sums)"]
 BUDGET = {"quick": {"workers": 8, "examples": 900, "seconds": 40},
-          "thorough": {"workers": 16, "examples": 5000, "seconds": 420}}
+          "thorough": {"workers": 16, "examples": 10000, "seconds": 450}}
 
 # ... and a finite marker small enough for ordinary soft terms to exceed it: only terms EQUAL to the marker are hard
 INFS = [10000, 1000000000.0, "inf", 30]
